@@ -94,13 +94,17 @@ func newScanner(file *fs.File) *scanner {
 	}
 }
 
+// Length returns the length of the JSON value the data begins with.
+// Panics if an invalid JSON structure is found or there is no JSON value at all.
 func (s *scanner) Length() uint {
 	var length uint
+	empty := true
 	for {
 		lex, ok := s.Next()
 		if !ok {
 			break
 		}
+		empty = false
 
 		if lex.Type() == lexeme.EndTop {
 			// Found character after the end of the schema and spaces. Ex: char
@@ -109,6 +113,10 @@ func (s *scanner) Length() uint {
 			break
 		}
 		length = uint(lex.End()) + 1
+	}
+	if empty {
+		// Empty or blank-only data: the same error as Document.Check gives.
+		panic(errors.NewDocumentError(s.file, errors.ErrEmptyJson))
 	}
 	for {
 		if length == 0 {
